@@ -433,10 +433,10 @@ def main(run):
     cases = [(None, ln) for ln in corpus if ln.startswith("c06 ")]
     leaf_corpus = [ln for ln in corpus if not ln.startswith("c06 ")]
     gens = []
-    n_sched = 150 if quick else 3000
-    n_multi = 900 if quick else 25000
-    n_big = 60 if quick else 2500
-    n_ns1 = 150 if quick else 4000
+    n_sched = 150 if quick else 6000
+    n_multi = 900 if quick else 90000
+    n_big = 60 if quick else 8000
+    n_ns1 = 150 if quick else 12000
     n_long = 12 if quick else 200
     for _ in range(n_sched):
         gens.append(G.gen_schedule_case(r))
